@@ -1,5 +1,5 @@
 // Kani harnesses for base/src/math/log.rs, built with `--no-default-features` (the table-driven no_std estimator):
-// `log2_fp8`, `ceil_log2_fp8`, `u8/u16::log2_bounds`, and `next_up` / `next_down` (present in every build).
+// `log2_fp8`, `ceil_log2_fp8`, `u8/u16/u32/u64::log2_bounds`, and `next_up` / `next_down` (present in every build).
 //
 // Oracle (C12/C19): the bounds enclose the true logarithm, 2^lb <= x <= 2^ub.  No floating-point logarithm is used:
 // the harness derives, with integer arithmetic only, certified enclosures lo[f] <= 2^(f/256) * 2^60 <= hi[f]
@@ -161,6 +161,66 @@ fn vk_base_log_log2_bounds_u8() {
         assert!(lb == f32::NEG_INFINITY && ub == f32::NEG_INFINITY);
     } else {
         assert!(vk_bl_bounds_ok(&lo, &hi, x as u16, lb, ub));
+    }
+    cover();
+}
+
+/// The same claim for the wide types (x < 2^64).  Their bounds are `next_down(L/256 + shift)` / `next_up(U/256 + shift)`;
+/// rounding lb UP and ub DOWN to the 1/1024 grid (a strengthening) lands on multiples of 1/256, which are compared with x
+/// itself: 2^(l/1024) <= x  <=>  2^((l/4)/256) <= x.  Bounds off the 1/256 grid only occur for x < 2^16 (the u8 paths
+/// divide by 2 or 4) and are compared through x^4 as before.
+fn vk_bl_bounds_ok_wide(lo: &[u128; 257], hi: &[u128; 257], x: u64, lb: f32, ub: f32) -> bool {
+    let l = vk_bl_f32_times_1024(lb, true);
+    let u = vk_bl_f32_times_1024(ub, false);
+    if l >= (1 << 20) || u >= (1 << 20) {
+        return false;
+    }
+    let small = x <= 0xffff;
+    let xs = if small { x as u128 } else { 0 };
+    let x4 = (xs * xs) * (xs * xs);
+    let low_ok = if l % 4 == 0 {
+        vk_bl_pow2_le(hi, (l / 4) as u32, x as u128)
+    } else {
+        small && vk_bl_pow2_le(hi, l as u32, x4)
+    };
+    let up_ok = if u % 4 == 0 {
+        vk_bl_le_pow2(lo, (u / 4) as u32, x as u128)
+    } else {
+        small && vk_bl_le_pow2(lo, u as u32, x4)
+    };
+    low_ok && up_ok
+}
+
+// u32 / u64 (impl_log2_bounds_for_uint!): the top 16 bits go through the u16 estimator, the shift is added, and the
+// low bits are covered by the ceiling of the top part (+ 1 when the top part is exactly 0x8000).
+#[cfg_attr(kani, kani::proof)]
+#[cfg_attr(not(kani), test)]
+#[cfg_attr(kani, kani::unwind(260))]
+fn vk_base_log_log2_bounds_u32() {
+    let (lo, hi) = vk_bl_table();
+    let x: u32 = any();
+    assume(x != 3);
+    let (lb, ub) = x.log2_bounds();
+    if x == 0 {
+        assert!(lb == f32::NEG_INFINITY && ub == f32::NEG_INFINITY);
+    } else {
+        assert!(vk_bl_bounds_ok_wide(&lo, &hi, x as u64, lb, ub));
+    }
+    cover();
+}
+
+#[cfg_attr(kani, kani::proof)]
+#[cfg_attr(not(kani), test)]
+#[cfg_attr(kani, kani::unwind(260))]
+fn vk_base_log_log2_bounds_u64() {
+    let (lo, hi) = vk_bl_table();
+    let x: u64 = any();
+    assume(x != 3);
+    let (lb, ub) = x.log2_bounds();
+    if x == 0 {
+        assert!(lb == f32::NEG_INFINITY && ub == f32::NEG_INFINITY);
+    } else {
+        assert!(vk_bl_bounds_ok_wide(&lo, &hi, x, lb, ub));
     }
     cover();
 }
